@@ -4,8 +4,14 @@
 (* are pruned (they commute in the model and in the code):                   *)
 (*   - within one tick, Issue steps come first                               *)
 (*   - block 1 is issued at tick 0 (time translation)                        *)
-(*   - no Clean directly after a Clean, none on an empty cache               *)
+(*   - no clean-up directly after a clean-up, none on an empty cache         *)
 (*   - a history ends with its last presentation                             *)
+(* SplitClean = FALSE: a clean-up is the single step Clean (the sweep with   *)
+(*                  nothing in between); the driver may still let the next   *)
+(*                  presentation ARRIVE while the real sweep is parked       *)
+(* SplitClean = TRUE : CleanBegin, CleanVisit(key)*, CleanEnd with time      *)
+(*                  passing (and blocks being issued) in between; with       *)
+(*                  "CleanerSnapshotSwap" also presentations in the gap      *)
 (* EmitCex = FALSE: print every history that used all MaxPresent             *)
 (*                  presentations (BFS: all of them; -simulate: a sample)    *)
 (* EmitCex = TRUE : print exactly the histories in which some block is       *)
@@ -13,7 +19,7 @@
 (*                  deviation flags: the counter-examples of AtMostOnce)     *)
 EXTENDS ReplayCache, TLC, Json, Sequences
 
-CONSTANT EmitCex
+CONSTANTS EmitCex, SplitClean
 
 VARIABLE hist
 gvars == <<vars, hist>>
@@ -33,9 +39,18 @@ GPresent == /\ Open
             /\ hist' = Append(hist, last')
 
 GClean == /\ Open
+          /\ ~SplitClean
           /\ last.a # "Clean"
           /\ Entries(cache) > 0
           /\ Clean
+          /\ hist' = Append(hist, last')
+
+GSweep == /\ Open
+          /\ SplitClean
+          /\ \/ (last.a \notin {"CleanEnd", "CleanSwap"} /\ Entries(cache) > 0 /\ CleanBegin)
+             \/ \E key \in RawKeys : CleanVisit(key)
+             \/ CleanEnd
+             \/ CleanSwap
           /\ hist' = Append(hist, last')
 
 GTick == /\ Open
@@ -43,7 +58,7 @@ GTick == /\ Open
          /\ Tick
          /\ hist' = Append(hist, last')
 
-GNext == GIssue \/ GPresent \/ GClean \/ GTick
+GNext == GIssue \/ GPresent \/ GClean \/ GSweep \/ GTick
 GSpec == GInit /\ [][GNext]_gvars
 
 Doc == [dev |-> Dev, w |-> W, r |-> R, steps |-> hist]
